@@ -75,6 +75,12 @@ TreeThenBranch(s) == \E j \in DOMAIN s :
    \/ s[j].k = "tree" /\ j < Len(s) /\ s[j + 1].k \in {"alt", "rep"}
    \/ s[j].k = "alt" /\ \E x \in DOMAIN s[j].bs : TreeThenBranch(s[j].bs[x])
    \/ s[j].k = "rep" /\ TreeThenBranch(s[j].bd)
+(* an unbounded repetition immediately followed by a branch token (KF33) *)
+RECURSIVE RepThenBranch(_)
+RepThenBranch(s) == \E j \in DOMAIN s :
+   \/ s[j].k = "rep" /\ s[j].hi = INF /\ j < Len(s) /\ s[j + 1].k \in {"alt", "rep"}
+   \/ s[j].k = "alt" /\ \E x \in DOMAIN s[j].bs : RepThenBranch(s[j].bs[x])
+   \/ s[j].k = "rep" /\ RepThenBranch(s[j].bd)
 (* an unbounded repetition whose body contains a branch token (KF10) *)
 RECURSIVE HasBranch(_), BranchInUnboundedRep(_)
 HasBranch(s) == \E j \in DOMAIN s : s[j].k \in {"alt", "rep"}
